@@ -6,6 +6,7 @@ import (
 	"fmt"
 	"io/fs"
 	"path"
+	"regexp"
 	"sort"
 	"strings"
 	"testing"
@@ -208,7 +209,7 @@ func runHist(c *vt.Ctx, kind string, ops []fsx.Op) *vt.Deviation {
 		if isOK(ol) && (o.K == "Glob" || o.K == "ReadDir" || o.K == "ReadFile") {
 			// what isomorphic trees answer to the same question, spelt portably
 			wv := strings.ReplaceAll(strings.ReplaceAll(ow.Val, `C:\\`, "/"), `\\`, "/")
-			if strings.Contains(ol.Val, "home") && strings.Contains(ol.Val, "root") {
+			if sysName.MatchString(ol.Val) || sysName.MatchString(wv) {
 				// the root directory reached through a link: its system directories are those of the OS
 				c.Label("skipped-root-listing")
 			} else if wv != ol.Val {
@@ -222,6 +223,10 @@ func runHist(c *vt.Ctx, kind string, ops []fsx.Op) *vt.Deviation {
 	}
 	return nil
 }
+
+// sysName: a name of a system directory in an answer - the universe of the histories has none, the answer
+// came from the root directory (reached through a link), which each emulation populates for its OS.
+var sysName = regexp.MustCompile(`(^|[/"\[ :])(Users|Windows|home|root|tmp)($|[/"\] :])`)
 
 func okClass(o fsx.Out) string {
 	if isOK(o) {
